@@ -96,6 +96,9 @@ def rand_conts(g, n=None, small=False):
 
 # ------------------------------------------------------------------ suites
 ENTRIES = ["readfrom", "frombuffer", "fromunsafe", "unmarshal", "base64", "readfromck", "must", "mustck", "readpipe"]
+# for CONFORMANT streams of another implementation, which may hold legal but non-canonical chunks (e.g. more runs than Validate() tolerates):
+# MustReadFrom panics on those by design, so the validating entry points are left out
+SPEC_ENTRIES = [e for e in ENTRIES if e not in ("must", "mustck")]
 
 
 @suite("ser")
@@ -308,7 +311,7 @@ def _spec(g, scale):
             else:
                 conts.append((k, "A", [(v, v) for v in sorted(r.sample(range(65536), r.choice([1, 3, 9])))]))
         y = g.fresh()
-        g.emit("spec %s %s %s %s" % (y, r.choice(ENTRIES), enc_stream(conts, run_cookie=True).hex(), fnv_digest(conts)))
+        g.emit("spec %s %s %s %s" % (y, r.choice(SPEC_ENTRIES), enc_stream(conts, run_cookie=True).hex(), fnv_digest(conts)))
         g.emit("card %s" % y)
         g.emit("ser %s" % y)          # write direction: the library's bytes for the same bitmap are read by the independent spec reading
         g.count("spec:multiple-of-8")
@@ -346,7 +349,7 @@ def _spec(g, scale):
             g.emit("new %s" % y)
             g.emit("addstride %s %d 65536 %d" % (y, r.choice([0, 9]), n0))
             conts = [(k, "A", [(v, v) for v in sorted(r.sample(range(65536), 2))]) for k in sorted(r.sample(range(65536), cnt))]
-            g.emit("spec %s %s %s %s reuse" % (y, r.choice(ENTRIES), enc_stream(conts, run_cookie=r.choice([None, True])).hex(), fnv_digest(conts)))
+            g.emit("spec %s %s %s %s reuse" % (y, r.choice(SPEC_ENTRIES), enc_stream(conts, run_cookie=r.choice([None, True])).hex(), fnv_digest(conts)))
             g.emit("card %s" % y)
             g.count("spec:grown-receiver")
     # a run chunk with very many runs (the count is a 16-bit field; 32768 runs is the most a chunk can hold)
@@ -356,7 +359,7 @@ def _spec(g, scale):
         if r.random() < 0.5:
             conts = sorted(conts + [((conts[0][0] + 1) % 65536, "A", [(5, 5), (9, 9)])])
         y = g.fresh()
-        g.emit("spec %s %s %s %s" % (y, r.choice(ENTRIES), enc_stream(conts).hex(), fnv_digest(conts)))
+        g.emit("spec %s %s %s %s" % (y, r.choice(SPEC_ENTRIES), enc_stream(conts).hex(), fnv_digest(conts)))
         g.emit("card %s" % y)
         g.count("spec:manyruns")
     # the empty stream (both cookies) into fresh and used receivers, through every entry point
